@@ -605,13 +605,27 @@ fn evidence(check: &Check, tier: Tier, seed: u64, a: &Agg, wall: f64, violations
     for (k, v) in extra_notes {
         extra.insert(k, v);
     }
+    // a part of the same check executed by the L2 simulator (bin/check runs it first)
+    let mut evaluations = a.runs;
+    let mut distinct_nontrivial = a.nontrivial_total;
+    let part = verif_root().join("evidence").join(format!("{}-l2.part.json", check.property));
+    if let Ok(text) = std::fs::read_to_string(&part) {
+        if let Ok(v) = serde_json::from_str::<Value>(&text) {
+            if v["seed"].as_u64() == Some(seed) && v["tier"].as_str() == Some(tier.as_str()) {
+                evaluations += v["coverage"]["evaluations"].as_u64().unwrap_or(0);
+                distinct_nontrivial += v["coverage"]["distinct_nontrivial"].as_u64().unwrap_or(0);
+                extra.insert("l2_part".into(), v["coverage"].clone());
+            }
+        }
+        let _ = std::fs::remove_file(&part);
+    }
     Evidence {
         property_id: check.property.to_string(),
         tier,
         seed,
         level: check.level.to_string(),
-        evaluations: a.runs,
-        distinct_nontrivial: a.nontrivial_total,
+        evaluations,
+        distinct_nontrivial,
         rule: check.rule.to_string(),
         samples: a.samples.clone(),
         extra,
